@@ -4,6 +4,7 @@
 #include <cmath>
 #include <cstdlib>
 #include <functional>
+#include <set>
 
 namespace vh {
 
@@ -398,6 +399,7 @@ struct NameGen
 {
     Rng &rng;
     int counter = 0;
+    std::set<std::string> used;
     explicit NameGen(Rng &r)
         : rng(r)
     {
@@ -413,6 +415,10 @@ struct NameGen
         s += std::to_string(counter++);
         if (rng.chance(0.1)) {
             s = "_" + s;
+        }
+        // random tail + counter can spell the same name twice ("u" "1" 4 and "u" "" 14): keep names unique
+        while (!used.insert(s).second) {
+            s += "x";
         }
         return s;
     }
